@@ -39,6 +39,8 @@ def run(ctx):
     jobs.append(job("i64", ident, ["--leaf", "64", "--style", "read"]))
     jobs.append(job("i4096", ident, ["--leaf", "4096", "--style", "writeto", "--crc"]))
     # the way the source delivers its bytes must not matter: the last data arrive together with io.EOF
+    # a store that cannot refresh objects (Touch fails): keys, duplicate flag and stored blobs are the same
+    jobs.append(job("vtouch", valued, ["--leaf", "64", "--style", "writeto", "--touch-fails", "--sched=false"]))
     jobs.append(job("ieof", ident, ["--leaf", "64", "--style", "readeof"]))
     jobs.append(job("veof", valued, ["--leaf", str(lams[(seed + 1) % 4]), "--style", "readeof", "--boundary"]))
     if ctx.thorough:
